@@ -15,7 +15,7 @@ import (
 func init() {
 	register(&propDef{
 		ID:          "C06",
-		Explanation: "Totality and promptness of the parser over all byte strings are runtime facts and are R4 (termination of the top-level loop) every parser that has read one of the template keywords (templ / css / script) turns each later failed sub-parse into an error — it never declines with ok=false and a nil error, because the Go-code reader un-reads keyword lines containing an opening parenthesis and asks these parsers again; R5 every write into a strings.Builder whose String() becomes an Expression's text is text consumed from the input (result of Parse/Take), never a constant. R6 every `until` lookahead handed to the node-list parser (which rewinds after a match) is flat: it does not reach the node-list parser again, so no branch is parsed twice per nesting level. R7 the text handed to the whole-file entry points (ParseString, parse.NewInput) in parser/v2, the LSP proxy and generatecmd is the text that was read: no strings/bytes/regexp/unicode call that produces text lies on its way (a stripped BOM or converted line ending shifts every recorded position against the file); the un-read test of R4 may be a regular expression, whose required prefixes are then enumerated from the pattern. Decides the position-provenance clauses of the property, for all sites of package parser/v2 and goexpression: R1 every Expression/Range built by the parser goes through NewExpression/NewRange with positions that are parse.Position values obtained from the input being parsed (Position()/PositionAt(), or locals/parameters of that type); no Position, Range or Expression composite literal with position fields exists outside the three constructors, and the constructors copy index, line and column field by field; direct writes to Index/Line/Col exist only as a paired adjustment of Index and Col of the same position by the same constant; R2 every NameRange is NewRange(PositionAt(Index() − len(X.Name)), Position()) where X.Name is the field assigned by the name parser in the statement just before, for the same X; R3 (clamps) the bounds that come from go/parser positions are clamped before they are used to slice the source: in the extractor wrapper `end > len(content) → end = len(content)` and `start > end → start = end` follow the prefix subtraction and precede the return, and every slice bound taken from a go/ast End() position is tested (rejected or clamped) before the slice; parseGo slices and advances with the extractor's own start/end and converts them with PositionAt(from+start / from+end). NOT decided: absence of panics and hangs on arbitrary input, that the recorded text equals the source at the recorded range for every construct (value-level), error positions. R5 also: the text handed to NewExpression is the consumed input, untransformed (no trimming / case folding of a slice of the input); R8 a look-ahead that un-reads a line and hands over to other parsers tests the line as it was read. R9 where an expression's text is made of parser results, its range brackets them: the end is read after the last contributing parser ran, the start before the first one of the same loop round (never between them, never only before the loop); R10 in the Go-fragment scanner the last element of a stack is accessed only where the stack is known to be non-empty (in the method, or at every one of its call sites). R3 also: a caller that hands the extraction wrapper a text with a second synthetic prefix subtracts that prefix from the wrapper's results, after the wrapper's clamp (never inside the extractor closure).",
+		Explanation: "Totality and promptness of the parser over all byte strings are runtime facts and are R4 (termination of the top-level loop) every parser that has read one of the template keywords (templ / css / script) turns each later failed sub-parse into an error — it never declines with ok=false and a nil error, because the Go-code reader un-reads keyword lines containing an opening parenthesis and asks these parsers again; R5 every write into a strings.Builder whose String() becomes an Expression's text is text consumed from the input (result of Parse/Take), never a constant. R6 every `until` lookahead handed to the node-list parser (which rewinds after a match) is flat: it does not reach the node-list parser again, so no branch is parsed twice per nesting level. R7 the text handed to the whole-file entry points (ParseString, parse.NewInput) in parser/v2, the LSP proxy and generatecmd is the text that was read: no strings/bytes/regexp/unicode call that produces text lies on its way (a stripped BOM or converted line ending shifts every recorded position against the file); the un-read test of R4 may be a regular expression, whose required prefixes are then enumerated from the pattern. Decides the position-provenance clauses of the property, for all sites of package parser/v2 and goexpression: R1 every Expression/Range built by the parser goes through NewExpression/NewRange with positions that are parse.Position values obtained from the input being parsed (Position()/PositionAt(), or locals/parameters of that type); no Position, Range or Expression composite literal with position fields exists outside the three constructors, and the constructors copy index, line and column field by field; direct writes to Index/Line/Col exist only as a paired adjustment of Index and Col of the same position by the same constant; R2 every NameRange is NewRange(PositionAt(Index() − len(X.Name)), Position()) where X.Name is the field assigned by the name parser in the statement just before, for the same X; R3 (clamps) the bounds that come from go/parser positions are clamped before they are used to slice the source: in the extractor wrapper `end > len(content) → end = len(content)` and `start > end → start = end` follow the prefix subtraction and precede the return, and every slice bound taken from a go/ast End() position is tested (rejected or clamped) before the slice; parseGo slices and advances with the extractor's own start/end and converts them with PositionAt(from+start / from+end). NOT decided: absence of panics and hangs on arbitrary input, that the recorded text equals the source at the recorded range for every construct (value-level), error positions. R5 also: the text handed to NewExpression is the consumed input, untransformed (no trimming / case folding of a slice of the input); R8 a look-ahead that un-reads a line and hands over to other parsers tests the line as it was read. R9 where an expression's text is made of parser results, its range brackets them: the end is read after the last contributing parser ran, the start before the first one of the same loop round (never between them, never only before the loop); R10 in the Go-fragment scanner the last element of a stack is accessed only where the stack is known to be non-empty (in the method, or at every one of its call sites). R3 also: a caller that hands the extraction wrapper a text with a second synthetic prefix subtracts that prefix from the wrapper's results, after the wrapper's clamp (never inside the extractor closure). R11 an index one or more places ahead of a position, X[i+k] with constant k ≥ 1, is evaluated only where a test that mentions len(X) has been passed (an earlier operand of the same && chain, an enclosing condition, an earlier guard that leaves): a loop's own i < len(X) bounds X[i], not X[i+1].",
 		Assumptions: []string{"github.com/a-h/parse Input.Position/PositionAt derive line and column from the byte index through its newline table"},
 		Trusted:     []string{"go/types", "x/tools go/packages, go/cfg"},
 		Run:         runC06,
@@ -29,6 +29,7 @@ func runC06(c *Ctx) {
 	committedPrefixParsers(c, "C06.R4")
 	parsedTextRange(c, "C06.R9")
 	lastElementGuarded(c, "C06.R10")
+	lookAheadIndexGuarded(c, "C06.R11", "parser/v2", "parser/v2/goexpression")
 	expressionTextFromInput(c, "C06.R5")
 	lookAheadTestsTheLineAsRead(c, "C06.R8")
 	lookaheadParsersFlat(c, "C06.R6")
@@ -980,8 +981,30 @@ func expressionTextFromInput(c *Ctx, rule string) {
 					}
 					return true
 				})
+				// … but only what is cut from the END: the start was taken where the parser's white-space skip stopped, and
+				// a left trim with a wider class than that skip (strings.TrimSpace cuts U+00A0, U+3000 …, the skip is ASCII)
+				// takes characters off the text that are still inside the recorded range
+				leftTrim := ""
+				ast.Inspect(argExpr, func(y ast.Node) bool {
+					if c2, ok := y.(*ast.CallExpr); ok {
+						if fn := calleeOf(info, c2); fn != nil && fn.Pkg() != nil && fn.Pkg().Path() == "strings" {
+							switch fn.Name() {
+							case "TrimRight", "TrimRightFunc", "TrimSuffix":
+							case "TrimSpace", "Trim", "TrimLeft", "TrimPrefix", "TrimFunc", "TrimLeftFunc":
+								leftTrim = "strings." + fn.Name()
+							}
+						}
+					}
+					return true
+				})
 				if fromBuilder {
 					transformed = ""
+					if leftTrim != "" {
+						ntext++
+						c.viol(rule, fmt.Sprintf("%s|NewExpression#%d|text-as-consumed", funcKey(pp, sc), ntext), c.pos(call.Pos()),
+							fmt.Sprintf("%s cuts the accumulated text on the LEFT with %s while the recorded start is where the parser's ASCII white-space skip stopped: a Unicode space in front of the code (U+00A0, U+3000) is removed from the text but stays inside the range, so the source at Range.From does not begin with the recorded text — in a file that still generates and formats, because the generator writes the trimmed text", funcKey(pp, sc), leftTrim))
+						return true
+					}
 				}
 				ntext++
 				c.check(transformed == "", rule, fmt.Sprintf("%s|NewExpression#%d|text-as-consumed", funcKey(pp, sc), ntext), c.pos(call.Pos()), "the expression text is the consumed input, untransformed",
